@@ -91,7 +91,7 @@ var QueryCalls int
 //@ ensures[len] err == nil ==> len(res) == len(inputs)
 //@ ensures[ans] err == nil ==> forall(k, 0, len(inputs), Ans(inputs[k], res[k]))
 //@ ensures[no-partial] err != nil ==> res == nil
-//@ ensures[errkind] gqlerrors.nonvacuous(err) @props C09
+//@ ensures[errkind] gqlerrors.nonvacuous(err) @props C09 C11
 //@ modifies fresh, entries(map[string]interface{}), elems(interface{}), elems(map[string]interface{}), global(LastStatus), all(MultiOpQueryer.client)
 //@ fold 0 invariant[len] len(acc) == lInputs
 //@ fold 0 invariant[partition] forall(p, 0, lInputs, unfolding(chunkOf(p, q.maxBatchSize), 0 <= chunkOf(p, q.maxBatchSize) && chunkOf(p, q.maxBatchSize) < n && chunkOf(p, q.maxBatchSize)*q.maxBatchSize <= p && p < chunkHi(chunkOf(p, q.maxBatchSize), q.maxBatchSize, lInputs)))
@@ -107,7 +107,7 @@ var QueryCalls int
 //@ ensures[index] err == nil ==> res != nil && res.Index == i && fresh(res.Response)
 //@ ensures[size] err == nil ==> len(res.Response) == chunkHi(i, q.maxBatchSize, lInputs) - i*q.maxBatchSize
 //@ ensures[ans] err == nil ==> forall(j, 0, len(res.Response), Ans(inputs[i*q.maxBatchSize+j], res.Response[j]))
-//@ ensures[errkind] gqlerrors.nonvacuous(err) @props C09
+//@ ensures[errkind] gqlerrors.nonvacuous(err) @props C09 C11
 //@ modifies fresh, entries(map[string]interface{}), elems(interface{}), global(LastStatus), all(MultiOpQueryer.client)
 //@ end
 
@@ -130,7 +130,9 @@ var QueryCalls int
 //@ ensures[ans] err == nil ==> forall(k, 0, len(inputs), Ans(inputs[k], results[k]))
 //@ ensures[no-partial] err != nil ==> results == nil
 //@ ensures[fresh] err == nil ==> fresh(results)
-//@ ensures[errkind] gqlerrors.nonvacuous(err) @props C09
+// (also C11: the reducer of Query drops an error that is an empty list, so a chunk that fails with one would be lost and
+// the caller handed partial results: a failing chunk must fail with a non-vacuous error)
+//@ ensures[errkind] gqlerrors.nonvacuous(err) @props C09 C11
 //@ modifies fresh, entries(map[string]interface{}), elems(interface{}), global(LastStatus), all(MultiOpQueryer.client)
 //@ loop 0 invariant[own] (base(inputsToFetch) == 0 || fresh(inputsToFetch)) && (base(toFetchIndexes) == 0 || fresh(toFetchIndexes)) && fresh(results)
 //@ loop 0 invariant[lens] len(results) == len(inputs) && len(toFetchIndexes) == len(inputsToFetch)
@@ -149,7 +151,7 @@ var QueryCalls int
 //@ requires q != nil && forall(k, 0, len(q.mdwares), q.mdwares[k] != nil)
 //@ ensures[len] err == nil ==> len(results) == len(inputs)
 //@ ensures[status-checked] err == nil ==> 200 <= LastStatus && LastStatus <= 299
-//@ ensures[errkind] gqlerrors.nonvacuous(err) @props C09
+//@ ensures[errkind] gqlerrors.nonvacuous(err) @props C09 C11
 //@ assumes-post err == nil ==> forall(j, 0, len(inputs), j < len(results) ==> Ans(inputs[j], results[j].Data))
 //@ modifies fresh, global(LastStatus), q.client
 //@ end
